@@ -88,6 +88,8 @@ func emitPP(id string, content []byte, level, pf, lit string, banner bool, ngor 
 			q = regexp.QuoteMeta(lit[1:]) + "$"
 		} else if strings.HasPrefix(lit, "\x02") {
 			q = regexp.QuoteMeta(lit[1:]) + "\n$"
+		} else if strings.HasPrefix(lit, "\x03") {
+			q = "^" + regexp.QuoteMeta(lit[1:]) + "\n$" // the whole header
 		}
 		filt, fe = runPP(content, append(append([]string{}, base...), "-no-color", "-f", q), banner)
 		mat, me = runPP(content, append(append([]string{}, base...), "-no-color", "-m", q), banner)
@@ -118,7 +120,30 @@ func opPP(r *rand.Rand, n int, tier string) {
 		ngor := "-"
 		junks := "-"
 		lits := []string{"zzz-never", ": ", "[locked]", "minutes", "Created by"}
-		switch r.Intn(5) {
+		forced := ""
+		switch r.Intn(6) {
+		case 5: // a bucket whose whole header is a proper part of another bucket's header ("1: S" in "11: S")
+			st := []string{"chan receive", "select", "IO wait", "running"}[r.Intn(4)]
+			base := g.dump(2, 3)
+			for k := range base {
+				base[k].Unavailable, base[k].ElideAfter, base[k].Annot = false, -1, ""
+				if len(base[k].Frames) == 0 {
+					base[k].Frames = []dFrame{{Sym: dSym{Pkg: "main", Name: "work"}, File: "/home/u/proj/work.go", Line: 3}}
+				}
+			}
+			var d []dGoroutine
+			for k := 0; k < 11; k++ {
+				cp := base[0]
+				cp.ID, cp.State, cp.Minutes, cp.Locked, cp.Creator = k+1, st, 0, false, nil
+				d = append(d, cp)
+			}
+			other := base[1]
+			other.ID, other.State, other.Minutes, other.Locked, other.Creator = 12, st, 0, false, nil
+			other.Frames = append([]dFrame{{Sym: dSym{Pkg: "main", Name: "loneWolf"}, File: "/home/u/proj/lone.go", Line: 7}}, other.Frames...)
+			d = append(d, other)
+			txt = printDump(d, dVariant{FileIndent: "\t"}, true)
+			ngor = "12"
+			forced = "\x03" + "1: " + st
 		case 0: // a race report
 			d := g.race()
 			for len(d.Creations) == 0 {
@@ -176,7 +201,9 @@ func opPP(r *rand.Rand, n int, tier string) {
 			}
 		}
 		lit := ""
-		if r.Intn(3) != 0 {
+		if forced != "" && r.Intn(4) != 0 {
+			lit = forced
+		} else if r.Intn(3) != 0 {
 			lit = lits[r.Intn(len(lits))]
 			// expressions anchored at the end of the header: use what headers really end with
 			ends := []string{"]", "minutes]", "running", lit}
